@@ -393,14 +393,13 @@ func opC05Chunk(raw json.RawMessage, o *Out) {
 			} else {
 				v["cov_levels"] = true
 			}
-			limit := mc
-			if rg.NMin[cf[0]] > limit {
-				limit = rg.NMin[cf[0]]
-			}
-			if len(cov) > limit {
-				o.Fail("cover/Covering/maxcells/"+cls, "%d cells > max(MaxCells, %d cells needed at MinLevel): Covering=%s %s", len(cov), rg.NMin[cf[0]], c05Fmt(cov), desc)
-			} else {
+			// Coverer!MaxCellsOK: MaxCells may be exceeded only if the minimum number of cells
+			// required at MinLevel exceeds it; with MinLevel = 0 the result is then that minimum
+			need := rg.NMin[cf[0]]
+			if len(cov) <= mc || (need > mc && (cf[0] > 0 || len(cov) <= rg.NMin[0])) {
 				v["cov_maxcells"] = true
+			} else {
+				o.Fail("cover/Covering/maxcells/"+cls, "%d cells > MaxCells although %d cells suffice at MinLevel: Covering=%s %s", len(cov), need, c05Fmt(cov), desc)
 			}
 			// --- FastCovering
 			if id, bad := c05FirstUncovered(cells, fast); bad {
